@@ -495,10 +495,37 @@ PROPS["C41"] = dict(family="oracle_boards", level="model_checking", design_ref="
                     text="Board frame condition of every edit, whether it succeeds or is refused.", note="Trusted: TLC, Json module, the snapshot/digest code in the harness.")
 
 
+# ---------------------------------------------------------------------------------- parse (C01 C02)
+def corrupt_parse(lines, pid):
+    for e in lines:
+        if e.get("ev") != "parse":
+            continue
+        if pid == "C01" and e["fn"] == "Parse":
+            e["tree"] = 0
+            return "syntax tree of a Parse call dropped"
+        if pid == "C02" and e["fn"] == "Parse" and e["nodes"]:
+            e["nodes"][-1][2] += 1
+            return "byte offset of a node start incremented"
+    return None
+
+
+FAMILIES["parse"] = dict(vdrive="parse", trace_module="TraceD2Parse", trace_cfg="TraceD2Parse.cfg", corrupt=corrupt_parse, engine="TraceD2Parse", args={"n": "600"}, chunk=1200, heap="4g")
+_ps_rule = ("the input space is FIXED (input #i from seed i, 6000 inputs; quick takes the 600 VERIF_SEED selects): generated programs (mode text), the same damaged in 1-3 places, raw byte strings of 1-7 bytes over 31 structural/invalid bytes "
+            "(incl. UTF-16 LE with BOM, odd and even payloads, and multi-byte/astral prefixes), constructs nested or left open 1-2000 deep, and key/value fragments; each through Parse (UTF-8 and UTF-16 position modes), ParseKey, ParseMapKey, ParseValue. Non-trivial: ")
+PROPS["C01"] = dict(family="parse", level="exploration", design_ref="5", technique="totality monitor in TLA+ over call/return events of the four parser entry points: returned, no panic, no timeout (20 s), a tree (Parse: always) or errors, errors positioned",
+                    rule=_ps_rule + "every input.", exhaustive=dict(quick=False, thorough=True), assumptions=["ParseKey/ParseMapKey/ParseValue return nil together with an error; for them the contract is 'a tree or errors'"],
+                    text="Parsing is a call/return stage whose guard is the totality contract.", note="Trusted: TLC, Json module, the input generators in the harness.")
+PROPS["C02"] = dict(family="parse", level="model_checking", design_ref="4.6", technique="TLA+ definition PosAt of line/column/offset after k runes in UTF-8 bytes and in UTF-16 units; TLC checks every node and error range of the real parser's trees against it (inside the input, start <= end, nested in the parent, triple = PosAt(k) for some k), plus re-parsing of key segment texts",
+                    rule=_ps_rule + "inputs of at most 300 runes that are not UTF-16 encoded (their rune table is logged).", exhaustive=dict(quick=False, thorough=True),
+                    assumptions=["AST nodes are found by reflection: every struct with a Range field; parent = closest enclosing such struct", "the segment-text clause is checked for inputs that parse without errors", "the reader machine (read/peek/commit/rewind/replay) itself is not traced: no hooks in d2parser"],
+                    text="PosAt is the specification of positions; the parser's reported ranges are validated against it for every generated input in both modes.", note="Trusted: TLC, Json module, the reflective AST walk.")
+
+
 # ------------------------------------------------------------------------------- manifest data
 HOOK_COMMITS = ["9d004ebd4", "879b5d739"]
 
 ENGINES = {
+    "TraceD2Parse": dict(path="specs/TraceD2Parse.tla", kind="TLA+ definition of source positions (PosAt) + totality contract, evaluated by TLC on the real parser's trees and errors"),
     "TraceD2Oracle": dict(path="specs/TraceD2Oracle.tla", kind="TLA+ action system of the d2oracle API over an identity-keyed graph (effects + frame conditions), evaluated by TLC on before/after snapshots of real edit histories"),
     "TracePipeline": dict(path="specs/TracePipeline.tla", kind="TLA+ stage machine of the tool chain whose per-stage guards are the properties; TLC evaluates them on the facts logged from the real stages for a fixed generated input space"),
     "TraceD2IR": dict(path="specs/D2IR.tla, specs/TraceD2IR.tla, specs/ir_alphabet.json", kind="TLA+ reference interpreter of the D2 core fragment (TLC, all programs within bound) + TLC comparison of every compiled program prefix with the model state"),
